@@ -127,6 +127,9 @@ class GraphAdapter(Adapter):
                 mn, tag = parameters.get("min"), parameters.get("tag")
                 ns = [t for t in self.out(v, "next") if ref_cmp_ge(self.prop(t, "n"), mn) and (tag is None or ref_eq(self.prop(t, "s"), tag))]
                 yield ctx, iter(ns)
+            elif self.sverif and edge_name == "req":
+                k = parameters.get("k")
+                yield ctx, iter([t for t in self.out(v, "next") if ref_cmp_ge(self.prop(t, "id"), k)])
             else:
                 yield ctx, iter(self.out(v, edge_name))
 
